@@ -268,7 +268,11 @@ func exec(h sink, s *state, op string) string {
 				if s.covered[cb.Start] {
 					// the window of this bucket has already been handed to the sink: this flow is accepted
 					// (and answered by List) but will never be emitted
-					h.OracleFail("late-flow-after-emission", "a flow was accepted into a window that had already been emitted to the sink, so it is left out of the emitted data",
+					lsig := "late-flow-after-emission"
+					if s.wraps {
+						lsig += ":wrap-config" // here the window may also have been emitted prematurely by the wrapped walk
+					}
+					h.OracleFail(lsig, "a flow was accepted into a window that had already been emitted to the sink, so it is left out of the emitted data",
 						map[string]any{"op": op, "bucket_start": cb.Start, "key": k})
 				}
 			}
